@@ -17,6 +17,10 @@ pub const ROUTES: &[(&str, &str, bool)] = &[
     ("proxy-defineproperty", "Object.defineProperty(new Proxy({}, { defineProperty() { cb(); return true; } }), 'p', { value: 1, configurable: true })", false),
     ("proxy-getprototypeof", "Object.getPrototypeOf(new Proxy({}, { getPrototypeOf() { cb(); return null; } }))", false),
     ("iterator", "[...{ [Symbol.iterator]() { return { next() { cb(); return { done: true }; } }; } }]", false),
+    ("array-from-close", "Array.from({ [Symbol.iterator]() { return { i: 0, next() { return { done: this.i++ > 0, value: 1 }; }, return() { print('finally'); return {}; } }; } }, function () { cb(); })", false),
+    ("destructure-default-close", "(function () { var [a = cb()] = { [Symbol.iterator]() { return { next() { return { done: false, value: undefined }; }, return() { print('finally'); return {}; } }; } }; })()", false),
+    ("for-of-body-close", "(function () { for (var q of { [Symbol.iterator]() { return { next() { return { done: false, value: 1 }; }, return() { print('finally'); return {}; } }; } }) { cb(); break; } })()", false),
+    ("map-from-iterable-close", "new Map({ [Symbol.iterator]() { return { i: 0, next() { return { done: this.i++ > 0, value: { get 0() { cb(); return 1; } } }; }, return() { print('finally'); return {}; } }; } })", false),
     ("iterator-return", "(function () { for (var q of { [Symbol.iterator]() { return { next() { return { done: false, value: 1 }; }, return() { cb(); return {}; } }; } }) break; })()", false),
     ("toPrimitive", "+{ [Symbol.toPrimitive]() { cb(); return 1; } }", false),
     ("valueOf", "({ valueOf() { cb(); return 1; } }) * 2", false),
